@@ -78,6 +78,19 @@ add("C32", "vcheck", "fault_enumeration", "fault injection through a public Stor
     "Generated histories on DbImpl<Faulty<FileStorage>>: one generated storage write/resize call inside one generated query fails (clean or short write); the query must return Err and leave no effect, later queries must conform to the reference model and survive close + reopen with both file variants. The listed known findings (one root cause) are met on most fault positions; they are counted and the campaign continues.",
     "Only write/resize calls made inside queries are failed (never Drop/reopen). Failure symptoms are classified coarsely (six classes) because they share one root cause, see known_findings.json.", "DESIGN 3/C32, appendix D")
 
+add("C07", "vcheck", "exploration", "structured mutation of valid database files generated by proptest (record-aware truncation, header/root/word overwrites with boundary values, bit flips, damaged recovery logs) with the oracle in isolated child processes under an allocation cap",
+    "Valid files from generated histories, damaged by 1-2 structured mutations and an optional damaged recovery log, opened with Db::new, DbFile::new and DbMemory::new and read completely; any panic, abort or single allocation request above 64 MiB is a violation attributed to the image; calls that do not answer within 3 s are counted as undecided. Listed known findings are counted and the campaign continues behind them.",
+    "Enormous allocation = one request above 64 MiB (inputs are a few KiB). Non-termination is not judged (the property does not list it). Panic signatures are keyed by source file + enclosing function + message, process-level ones by the first repository frame of the backtrace.", "DESIGN 3/C07")
+add("C20", "vcheck", "exploration", RT,
+    "Arbitrary values of every built-in AgdbSerialize implementation, of the query types (generated by the history grammar, nested conditions to depth 4) and of a corpus of 12 derived user types: deserialize(serialize(x)) equals x (Debug text and re-serialized bytes) and serialized_size equals the number of bytes.",
+    "Non-UTF-8 paths and IPv6 socket addresses with a non-zero flow label are outside the textual encodings the codec documents and are not generated.", "DESIGN 3/C20")
+add("C21", "vcheck", "exploration", "mutation-based property testing (proptest) of valid encodings plus random bytes, oracle in isolated child processes under an allocation cap",
+    "Valid encodings of every C20 type mutated (truncation, boundary length words, byte sets, bit flips, junk) and random byte strings, fed to 54 deserializers / typed conversions: each call must return Ok or Err.",
+    "Enormous allocation = one request above 64 MiB. Endless loops over zero-sized elements are undecided, not violations.", "DESIGN 3/C21")
+add("C22", "vcheck", "exploration", RT,
+    "A corpus of 8 derived DbType/DbElement types with arbitrary field values stored singly and in batches, read back through both documented routes, one element updated through its db_id: values equal, only the updated element changes, typed searches return only that type.",
+    "A None field is omitted on save (documented), so after an update the stored key keeps its previous value; the oracle expects exactly that.", "DESIGN 3/C22")
+
 TITLES = {}
 for l in open("/verif/properties.jsonl"):
     pr = json.loads(l)
